@@ -12,6 +12,8 @@ import (
 	"testing"
 
 	"github.com/advancedclimatesystems/gonnx"
+	"github.com/advancedclimatesystems/gonnx/onnx"
+	"google.golang.org/protobuf/proto"
 	"gorgonia.org/tensor"
 	"pgregory.net/rapid"
 )
@@ -360,6 +362,8 @@ func TestC02(t *testing.T) {
 		mc.record("generated")
 	})
 
+	check(t, "operands-as-inputs", 150, 800, c02OperandsAsInputs)
+
 	check(t, "sample-models", 150, 800, func(rt *rapid.T) {
 		sms := sampleModels()
 		names := []string{"gru", "gru", "mlp", "scaler"}
@@ -402,4 +406,169 @@ func addressDependentRounding() (bool, string) {
 	}
 	_ = keep
 	return len(seen) > 1, fmt.Sprintf("LinearRegressor(5 features) on equal inputs in 400 freshly allocated tensors: %d distinct results", len(seen))
+}
+
+// ---- operands as graph inputs ----
+
+// operandNode is one operator application produced by the operator-level generators of C03-C06;
+// in the "operands-as-inputs" sub-check every operand, including what a real model would hold as
+// weights, is a graph input of the model, so that the caller owns (and may refill) all of them.
+type operandNode struct {
+	node *onnx.NodeProto
+	ins  []tensor.Tensor
+	nOut int
+}
+
+func genBigDot(rt *rapid.T) operandNode {
+	m := rapid.IntRange(1, 6).Draw(rt, "m")
+	k := rapid.SampledFrom([]int{8, 16, 32, 33, 40, 64}).Draw(rt, "k")
+	n := rapid.SampledFrom([]int{16, 32, 33, 64, 70, 130}).Draw(rt, "n")
+	if rapid.IntRange(0, 2).Draw(rt, "matmul") == 0 {
+		batch := rapid.SampledFrom([]int{0, 0, 2, 3}).Draw(rt, "stack")
+		sa, sb := []int{m, k}, []int{k, n}
+		if batch > 0 {
+			sa = []int{batch, m, k}
+		}
+		return operandNode{mkNode("MatMul", nil, nil), []tensor.Tensor{mkT(sa, smallF32s(rt, prod(sa), 2, "a")), mkT(sb, smallF32s(rt, prod(sb), 2, "b"))}, 1}
+	}
+	transA, transB := rapid.IntRange(0, 1).Draw(rt, "transA"), rapid.IntRange(0, 1).Draw(rt, "transB")
+	var attrs []*onnx.AttributeProto
+	if transA == 1 || rapid.Bool().Draw(rt, "transAGiven") {
+		attrs = append(attrs, attrI("transA", int64(transA)))
+	}
+	if transB == 1 || rapid.Bool().Draw(rt, "transBGiven") {
+		attrs = append(attrs, attrI("transB", int64(transB)))
+	}
+	if a := rapid.SampledFrom([]float32{0, 0, 0.5, 2}).Draw(rt, "alpha"); a != 0 {
+		attrs = append(attrs, attrF("alpha", a))
+	}
+	if b := rapid.SampledFrom([]float32{0, 0, 0.5, -1}).Draw(rt, "beta"); b != 0 {
+		attrs = append(attrs, attrF("beta", b))
+	}
+	sa, sb := []int{m, k}, []int{k, n}
+	if transA == 1 {
+		sa = []int{k, m}
+	}
+	if transB == 1 {
+		sb = []int{n, k}
+	}
+	ins := []tensor.Tensor{mkT(sa, smallF32s(rt, prod(sa), 2, "a")), mkT(sb, smallF32s(rt, prod(sb), 2, "b"))}
+	if sc := rapid.SampledFrom([][]int{nil, {n}, {m, n}, {1, n}, {m, 1}, {}}).Draw(rt, "cShape"); sc != nil {
+		ins = append(ins, mkT(sc, smallF32s(rt, prod(sc), 2, "c")))
+	}
+	return operandNode{mkNode("Gemm", nil, nil, attrs...), ins, 1}
+}
+
+func genOperandNode(rt *rapid.T) operandNode {
+	switch rapid.SampledFrom([]string{"conv", "conv", "conv", "bigdot", "bigdot", "dot", "rnn", "binary"}).Draw(rt, "family") {
+	case "conv":
+		g := genConvGeom(rt)
+		if g.group == 2 {
+			g.group = 1
+		}
+		if rapid.IntRange(0, 2).Draw(rt, "bigOperand") > 0 {
+			// an input of at least 4 096 elements: scale the batch (and, for tiny images, the channels)
+			for g.c*prod(g.in) < 48 {
+				g.c++
+			}
+			per := g.c * prod(g.in)
+			g.n = (4096+per-1)/per + rapid.IntRange(0, 2).Draw(rt, "extraN")
+		}
+		x := mkT(append([]int{g.n, g.c}, g.in...), smallF32s(rt, g.n*g.c*prod(g.in), 2, "x"))
+		w := mkT(append([]int{g.m, g.c}, g.k...), smallF32s(rt, g.m*g.c*prod(g.k), 1, "w"))
+		ins := []tensor.Tensor{x, w}
+		if g.hasBias {
+			ins = append(ins, mkT([]int{g.m}, smallF32s(rt, g.m, 2, "b")))
+		}
+		return operandNode{g.node(), ins, 1}
+	case "bigdot":
+		return genBigDot(rt)
+	case "dot":
+		c := c04Gen(rt)
+		return operandNode{c.node, c.ins, 1}
+	case "rnn":
+		c := genRnnCase(rt)
+		return operandNode{c.node(), c.inputs(), len(c.node().Output)}
+	default:
+		c := c03Gen(rt)
+		b := c.b
+		if c.same {
+			b = cloneT(c.a)
+		}
+		return operandNode{mkNode(c.op, nil, nil), []tensor.Tensor{c.a, b}, 1}
+	}
+}
+
+// operandModel assembles the nodes into one model; returns its bytes, a description and the
+// prototype feed (name -> tensor of the generated case).
+func operandModel(nodes []operandNode) ([]byte, string, gonnx.Tensors, bool) {
+	g := &onnx.GraphProto{}
+	proto0 := gonnx.Tensors{}
+	desc := ""
+	for i, on := range nodes {
+		n := proto.Clone(on.node).(*onnx.NodeProto)
+		n.Input, n.Output = nil, nil
+		for j, t := range on.ins {
+			if t == nil {
+				n.Input = append(n.Input, "")
+				continue
+			}
+			if _, ok := onnxTypeOf[t.Dtype()]; !ok {
+				return nil, "", nil, false
+			}
+			name := fmt.Sprintf("n%d_in%d", i, j)
+			n.Input = append(n.Input, name)
+			g.Input = append(g.Input, valueInfoFor(name, t))
+			proto0[name] = t
+		}
+		for j := 0; j < on.nOut; j++ {
+			name := fmt.Sprintf("n%d_out%d", i, j)
+			n.Output = append(n.Output, name)
+			g.Output = append(g.Output, valueInfoNoShape(name))
+		}
+		g.Node = append(g.Node, n)
+		desc += descNode(n)
+		for _, t := range on.ins {
+			if t == nil {
+				desc += " nil"
+			} else {
+				desc += fmt.Sprintf(" %v%v", t.Dtype(), t.Shape())
+			}
+		}
+		desc += "; "
+	}
+	return marshalModel(mkModel(g, 13)), desc, proto0, true
+}
+
+func c02OperandsAsInputs(rt *rapid.T) {
+	var nodes []operandNode
+	for i, n := 0, rapid.IntRange(1, 3).Draw(rt, "nOperandNodes"); i < n; i++ {
+		nodes = append(nodes, genOperandNode(rt))
+	}
+	b, desc, proto0, ok := operandModel(nodes)
+	if !ok {
+		rt.Skip("an operand type has no ONNX encoding")
+	}
+	if lr := loadBytes(b); lr.err != nil || lr.panicked {
+		rt.Skip("model refused at load") // e.g. an attribute combination the operator refuses in Init is a Run error, not a load error; nothing to do here
+	}
+	names := sortedKeys(proto0)
+	first := true
+	mc := newC02Machine(rt, "operands:"+desc, b, func(rt *rapid.T, n int) gonnx.Tensors {
+		feed := gonnx.Tensors{}
+		for _, k := range names {
+			t := proto0[k]
+			if first || t.Dtype() != tensor.Float32 {
+				feed[k] = cloneT(t)
+			} else {
+				feed[k] = mkT(t.Shape(), smallF32s(rt, prod(t.Shape()), 2, "again"))
+			}
+		}
+		first = false
+		return feed
+	}, false, 1, true)
+	mc.depth = 3
+	mc.step(rt, "first", mc.mkFeed(rt, 1))
+	rt.Repeat(mc.actions(rt))
+	mc.record("operands-as-inputs")
 }
